@@ -58,5 +58,18 @@ CLAIMS["C20"] = {
     "technique": "typestate over effect traces with callee summaries + guard truth tables by specialisation",
     "ref": "DESIGN.md section 5 C20",
 }
+CLAIMS["C07"] = {
+    "text": "Decides for all functions: the return-statement search descends every Block-bearing field (taken from the "
+            "installed mypy's own class definitions) of every compound statement class on every path, so inference sees "
+            "every return at any nesting; the literal-to-type table of the inference helper; every accepted inferred "
+            "type is added to the collection; '-> None' is represented by a single none-typed result and rendered as no "
+            "result (six result-list shapes), constructors have none; annotated tuples give one Result per element in "
+            "order; every Result construction takes its name from the docstring entry or the 1-based numbering and its "
+            "id ends in that name; no annotation and nothing inferred gives []. Grouping of mixed tuple/non-tuple "
+            "inferred returns and docstring matching by hash(type) are value-level and not decided.",
+    "note": TRUST,
+    "technique": "dispatch totality against the library model + specialisation of result construction and rendering",
+    "ref": "DESIGN.md section 5 C07",
+}
 
 NOT_APPLICABLE = {}
